@@ -1,31 +1,8 @@
-(** * Wasm/Leb128Signed — round trip of the canonical signed LEB128 encoding [senc]
-    (= [leb128::write::signed], crate leb128 0.2.5) through the reader [sread] of [Wasm/Leb128.v]. *)
+(** * Wasm/Leb128Signed — round trip of the signed LEB128 reader of [Wasm/Leb128.v]. *)
 From Coq Require Import ZArith NArith List Bool Lia.
-From CB Require Import Wasm.Leb128 Wasm.Leb128Proofs.
+From CB Require Import Wasm.Leb128.
 Import ListNotations.
-
-(** ** signed *)
 Local Open Scope Z_scope.
-
-Lemma signed64_congr (x : N) (t : Z) :
-  - 2 ^ 63 <= t < 2 ^ 63 -> Z.of_N x mod 2 ^ 64 = t mod 2 ^ 64 -> signed64 x = t.
-Proof.
-  intros R E. unfold signed64.
-  assert (Y : Z.of_N (x mod 2 ^ 64) = t mod 2 ^ 64).
-  { rewrite N2Z.inj_mod. rewrite <- E. reflexivity. }
-  assert (B : 0 <= Z.of_N (x mod 2 ^ 64) < 2 ^ 64).
-  { rewrite Y. apply Z.mod_pos_bound. reflexivity. }
-  change (2 ^ 64) with 18446744073709551616 in *.
-  change (2 ^ 63) with 9223372036854775808 in *.
-  change (2 ^ 64)%N with 18446744073709551616%N in *.
-  change (2 ^ 63)%N with 9223372036854775808%N in *.
-  destruct (Z.ltb_spec t 0) as [Neg|Pos].
-  - assert (M : t mod 18446744073709551616 = t + 18446744073709551616).
-    { rewrite <- (Z.mod_add t 1) by lia. apply Z.mod_small. lia. }
-    destruct (N.ltb_spec (x mod 18446744073709551616) 9223372036854775808); lia.
-  - assert (M : t mod 18446744073709551616 = t) by (apply Z.mod_small; lia).
-    destruct (N.ltb_spec (x mod 18446744073709551616) 9223372036854775808); lia.
-Qed.
 
 Lemma senc_S f z : senc (S f) z =
   if (-64 <=? z) && (z <? 64) then [Z.to_N (z mod 128)]
@@ -33,139 +10,165 @@ Lemma senc_S f z : senc (S f) z =
 Proof. reflexivity. Qed.
 Lemma sread_S k b r shift acc : sread (S k) (b :: r) shift acc =
   if ((shift =? 63) && negb (b =? 0) && negb (b =? 127))%N then None
-  else if (b <? 128)%N then
-         if ((shift + 7 <? 64) && (64 <=? b mod 128))%N
-         then Some (Z.of_N ((acc + (b mod 128) * 2 ^ shift) mod 2 ^ 64) - 2 ^ Z.of_N (shift + 7), r)
-         else Some (signed64 ((acc + (b mod 128) * 2 ^ shift) mod 2 ^ 64), r)
-       else sread k r (shift + 7) ((acc + (b mod 128) * 2 ^ shift) mod 2 ^ 64).
+  else
+    let acc' := ((acc + (b mod 128) * 2 ^ shift) mod 2 ^ 64)%N in
+    if (b <? 128)%N then
+      if ((shift + 7 <? 64) && (64 <=? b mod 128))%N
+      then Some (Z.of_N acc' - 2 ^ Z.of_N (shift + 7), r)
+      else Some (signed64 acc', r)
+    else sread k r (shift + 7)%N acc'.
 Proof. reflexivity. Qed.
 
-Ltac leb_setup z shift :=
-  pose proof (Z.div_mod z 128 ltac:(lia)) as DM;
-  pose proof (Z.mod_pos_bound z 128 ltac:(lia)) as MB;
-  set (q := z / 128) in *; set (b := z mod 128) in *;
-  assert (HP : Z.of_N (2 ^ shift) = 2 ^ Z.of_N shift) by apply N2Z.inj_pow;
-  assert (HP7 : 2 ^ Z.of_N (shift + 7) = 128 * 2 ^ Z.of_N shift)
-    by (rewrite N2Z.inj_add, Z.pow_add_r by lia; change (2 ^ Z.of_N 7) with 128; ring);
-  assert (HP7n : (2 ^ (shift + 7) = 128 * 2 ^ shift)%N)
-    by (rewrite N.pow_add_r; change (2 ^ 7)%N with 128%N; ring);
-  assert (Ppos : 0 < 2 ^ Z.of_N shift) by (apply Z.pow_pos_nonneg; lia);
-  assert (Hb : Z.of_N (Z.to_N b) = b) by (apply Z2N.id; lia);
-  assert (Hbm : (Z.to_N b mod 128 = Z.to_N b)%N) by (apply N.mod_small; lia);
-  assert (P63 : shift = 63%N -> 2 ^ Z.of_N shift = 2 ^ 63) by (intros ->; reflexivity).
-
-(** last byte: the remaining value fits in 7 bits signed *)
-Lemma sread_last k z rest shift acc :
-  -64 <= z < 64 -> (acc < 2 ^ shift)%N -> (shift <= 63)%N ->
-  - 2 ^ 63 <= Z.of_N acc + z * 2 ^ Z.of_N shift < 2 ^ 63 ->
-  sread (S k) (Z.to_N (z mod 128) :: rest) shift acc = Some (Z.of_N acc + z * 2 ^ Z.of_N shift, rest).
+(** facts about the low seven bits of [z] as a byte *)
+Lemma byte_facts m : 0 <= m < 128 ->
+  let b := Z.to_N m in
+  (b mod 128 = b)%N /\ Z.of_N b = m /\ (b <? 128)%N = true /\ ((b + 128) <? 128)%N = false /\
+  ((b + 128) mod 128 = b)%N /\ (b < 128)%N.
 Proof.
-  intros Hz Hacc Hsh Htot. leb_setup z shift.
-  rewrite sread_S, Hbm.
-  assert (G : ((shift =? 63) && negb (Z.to_N b =? 0) && negb (Z.to_N b =? 127))%N = false).
-  { destruct (N.eqb_spec shift 63) as [E|]; [|reflexivity]. cbn [andb].
-    specialize (P63 E). rewrite P63 in *. change (2 ^ 63) with 9223372036854775808 in *.
-    assert (Hacc' : Z.of_N acc < 9223372036854775808) by (subst shift; change (2 ^ 63)%N with 9223372036854775808%N in Hacc; lia).
-    assert (z = 0 \/ z = -1) as [Z0|Z1] by lia.
-    - assert (b = 0) by (unfold b; rewrite Z0; reflexivity).
-      destruct (N.eqb_spec (Z.to_N b) 0); [reflexivity|lia].
-    - assert (b = 127) by (unfold b; rewrite Z1; reflexivity).
-      destruct (N.eqb_spec (Z.to_N b) 0); [reflexivity|]. destruct (N.eqb_spec (Z.to_N b) 127); [reflexivity|lia]. }
-  rewrite G. rewrite (proj2 (N.ltb_lt (Z.to_N b) 128)) by lia.
-  assert (HX : Z.of_N (acc + Z.to_N b * 2 ^ shift) = Z.of_N acc + b * 2 ^ Z.of_N shift)
-    by (rewrite N2Z.inj_add, N2Z.inj_mul, HP, Hb; reflexivity).
-  destruct (N.ltb_spec (shift + 7) 64) as [S7|S7]; cbn [andb].
-  - assert (Hsmall : (acc + Z.to_N b * 2 ^ shift < 2 ^ 64)%N).
-    { assert (2 ^ (shift + 7) <= 2 ^ 63)%N by (apply N.pow_le_mono_r; lia).
-      change (2 ^ 64)%N with (2 * 2 ^ 63)%N. nia. }
-    rewrite (N.mod_small _ _ Hsmall).
-    destruct (N.leb_spec 64 (Z.to_N b)) as [B64|B64].
-    + f_equal. f_equal. rewrite HX, HP7. assert (b = z + 128) by lia. nia.
-    + f_equal. f_equal. apply signed64_congr; [exact Htot|]. rewrite HX.
-      assert (b = z) by lia. congruence.
-  - f_equal. f_equal. apply signed64_congr; [exact Htot|].
-    rewrite N2Z.inj_mod. change (Z.of_N (2 ^ 64)) with (2 ^ 64). rewrite Z.mod_mod by discriminate.
-    rewrite HX.
-    assert (C : exists c, 128 * 2 ^ Z.of_N shift = c * 2 ^ 64).
-    { exists (2 ^ (Z.of_N shift + 7 - 64)). rewrite <- Z.pow_add_r by lia. rewrite <- HP7. f_equal; lia. }
-    destruct C as [c Hc].
-    replace (Z.of_N acc + z * 2 ^ Z.of_N shift) with (Z.of_N acc + b * 2 ^ Z.of_N shift + (q * c) * 2 ^ 64).
-    + rewrite Z.mod_add by discriminate. reflexivity.
-    + rewrite <- Z.mul_assoc, <- Hc. rewrite DM. ring.
+  intros H b. assert (Hb : (b < 128)%N) by (unfold b; lia).
+  repeat split.
+  - apply N.mod_small; exact Hb.
+  - unfold b. lia.
+  - apply N.ltb_lt; exact Hb.
+  - apply N.ltb_ge. lia.
+  - replace (b + 128)%N with (b + 1 * 128)%N by lia. rewrite N.mod_add by lia. apply N.mod_small; exact Hb.
+  - exact Hb.
 Qed.
 
-(** generic invariant: [acc] holds the bits already read (below [2^shift]), [z] is the value still to
-    be written; the total [acc + z * 2^shift] fits in 64 bits signed. *)
-Lemma sread_senc : forall k z rest shift acc,
+Lemma pow7 j : 2 ^ (7 * Z.of_nat (S j)) = 128 * 2 ^ (7 * Z.of_nat j).
+Proof. replace (7 * Z.of_nat (S j)) with (7 + 7 * Z.of_nat j) by lia. rewrite Z.pow_add_r by lia. reflexivity. Qed.
+
+Section Byte.
+Variables (j : nat) (z : Z) (acc : N).
+Notation P := (2 ^ (7 * Z.of_nat j)).
+Notation sh := (7 * N.of_nat j)%N.
+Hypothesis HA : (acc < 2 ^ sh)%N.
+Hypothesis HV : - 2 ^ 63 <= Z.of_N acc + z * P < 2 ^ 63.
+
+Lemma HP : 0 < P. Proof. apply Z.pow_pos_nonneg; lia. Qed.
+Lemma HPN : Z.of_N (2 ^ sh) = P.
+Proof. rewrite N2Z.inj_pow. f_equal. lia. Qed.
+Lemma HAz : 0 <= Z.of_N acc < P.
+Proof. split; [lia|]. rewrite <- HPN. lia. Qed.
+
+Lemma low_facts : 0 <= z mod 128 < 128 /\ z = 128 * (z / 128) + z mod 128.
+Proof. split; [apply Z.mod_pos_bound; lia|apply Z.div_mod; lia]. Qed.
+
+(** shift <= 56: adding the seven new bits does not wrap *)
+Lemma nowrap : (j <= 8)%nat ->
+  128 * P <= 2 ^ 63 /\
+  ((acc + Z.to_N (z mod 128) * 2 ^ sh) mod 2 ^ 64 = acc + Z.to_N (z mod 128) * 2 ^ sh)%N /\
+  Z.of_N (acc + Z.to_N (z mod 128) * 2 ^ sh) = Z.of_N acc + (z mod 128) * P.
+Proof.
+  intros J8. pose proof HP. pose proof HAz. destruct low_facts as [HM _].
+  destruct (byte_facts _ HM) as (_ & B2 & _).
+  assert (H128 : 128 * P <= 2 ^ 63) by (rewrite <- pow7; apply Z.pow_le_mono_r; lia).
+  assert (ZV : Z.of_N (acc + Z.to_N (z mod 128) * 2 ^ sh) = Z.of_N acc + (z mod 128) * P)
+    by (rewrite N2Z.inj_add, N2Z.inj_mul, HPN, B2; reflexivity).
+  split; [exact H128|]. split; [|exact ZV].
+  apply N.mod_small. apply N2Z.inj_lt. rewrite ZV. change (Z.of_N (2 ^ 64)) with (2 * 2 ^ 63). nia.
+Qed.
+
+(** the final byte of an encoding *)
+Lemma last_byte k rest : (j <= 9)%nat -> -64 <= z < 64 ->
+  sread (S k) (Z.to_N (z mod 128) :: rest) sh acc = Some (Z.of_N acc + z * P, rest).
+Proof.
+  intros J9 HZ. pose proof HP. pose proof HAz. destruct low_facts as [HM HD].
+  destruct (byte_facts _ HM) as (B1 & B2 & B3 & _ & _ & B6).
+  rewrite sread_S, B1, B3.
+  destruct (N.eqb_spec sh 63) as [E63|N63].
+  - (* the tenth byte *)
+    assert (j = 9%nat) by lia. subst j. change (2 ^ (7 * Z.of_nat 9)) with (2 ^ 63) in *.
+    change (7 * N.of_nat 9)%N with 63%N in *. cbn [andb].
+    assert (z = 0 \/ z = -1) as [-> | ->] by nia.
+    + change (Z.to_N (0 mod 128)) with 0%N. cbn [N.eqb negb andb].
+      change ((63 + 7 <? 64)%N) with false. cbn [andb].
+      rewrite N.mul_0_l, N.add_0_r. unfold signed64. rewrite N.mod_mod by (intro X; discriminate X).
+      rewrite (N.mod_small acc (2 ^ 64)) by (apply N.lt_trans with (2 ^ 63)%N; [exact HA|reflexivity]).
+      rewrite (proj2 (N.ltb_lt acc (2 ^ 63)) HA). f_equal. f_equal. lia.
+    + change (Z.to_N (-1 mod 128)) with 127%N. cbn [N.eqb negb andb Pos.eqb].
+      change ((63 + 7 <? 64)%N) with false. cbn [andb].
+      assert (EQ : ((acc + 127 * 2 ^ 63) mod 2 ^ 64 = acc + 2 ^ 63)%N).
+      { replace (acc + 127 * 2 ^ 63)%N with (acc + 2 ^ 63 + 63 * 2 ^ 64)%N by (change (2 ^ 64)%N with (2 * 2 ^ 63)%N; lia).
+        rewrite N.mod_add by (intro X; discriminate X). apply N.mod_small.
+        change (2 ^ 64)%N with (2 ^ 63 + 2 ^ 63)%N. lia. }
+      rewrite EQ. unfold signed64.
+      rewrite (N.mod_small (acc + 2 ^ 63) (2 ^ 64)) by (change (2 ^ 64)%N with (2 ^ 63 + 2 ^ 63)%N; lia).
+      rewrite (proj2 (N.ltb_ge (acc + 2 ^ 63) (2 ^ 63))) by lia.
+      f_equal. f_equal. rewrite N2Z.inj_add. change (Z.of_N (2 ^ 63)) with (2 ^ 63).
+      change (2 ^ 64) with (2 * 2 ^ 63). lia.
+  - assert (J8 : (j <= 8)%nat) by lia. destruct (nowrap J8) as (H128 & NW & ZV).
+    cbn [andb]. rewrite NW.
+    assert (SL : (sh + 7 <? 64)%N = true) by (apply N.ltb_lt; lia). rewrite SL. cbn [andb].
+    assert (PS : 2 ^ Z.of_N (sh + 7) = 128 * P)
+      by (replace (Z.of_N (sh + 7)) with (7 * Z.of_nat (S j)) by lia; apply pow7).
+    destruct (N.leb_spec 64 (Z.to_N (z mod 128))) as [SG|SG].
+    + f_equal. f_equal. rewrite ZV, PS.
+      assert (z < 0) by (destruct (Z.ltb_spec z 0); [assumption|exfalso; rewrite Z.mod_small in SG by lia; lia]).
+      replace (z mod 128) with (z + 128) by (apply Z.mod_unique with (q := -1); lia). lia.
+    + assert (0 <= z).
+      { destruct (Z.leb_spec 0 z); [assumption|exfalso].
+        assert (z mod 128 = z + 128) by (symmetry; apply Z.mod_unique with (q := -1); lia). lia. }
+      unfold signed64. rewrite NW.
+      assert (LT : (acc + Z.to_N (z mod 128) * 2 ^ sh < 2 ^ 63)%N)
+        by (apply N2Z.inj_lt; rewrite ZV; change (Z.of_N (2 ^ 63)) with (2 ^ 63); rewrite Z.mod_small by lia; nia).
+      rewrite (proj2 (N.ltb_lt _ _) LT). f_equal. f_equal. rewrite ZV, Z.mod_small by lia. reflexivity.
+Qed.
+End Byte.
+
+Lemma sread_senc : forall k j z acc rest,
+  (j + S k <= 10)%nat ->
+  (acc < 2 ^ (7 * N.of_nat j))%N ->
   - 2 ^ (7 * Z.of_nat (S k) - 1) <= z < 2 ^ (7 * Z.of_nat (S k) - 1) ->
-  (acc < 2 ^ shift)%N -> (shift <= 63)%N ->
-  - 2 ^ 63 <= Z.of_N acc + z * 2 ^ Z.of_N shift < 2 ^ 63 ->
-  sread (S k) (senc (S k) z ++ rest) shift acc = Some (Z.of_N acc + z * 2 ^ Z.of_N shift, rest).
+  - 2 ^ 63 <= Z.of_N acc + z * 2 ^ (7 * Z.of_nat j) < 2 ^ 63 ->
+  sread (S k) (senc (S k) z ++ rest) (7 * N.of_nat j)%N acc = Some (Z.of_N acc + z * 2 ^ (7 * Z.of_nat j), rest).
 Proof.
-  induction k as [|k IH]; intros z rest shift acc Hz Hacc Hsh Htot; rewrite senc_S.
-  - change (2 ^ (7 * Z.of_nat 1 - 1)) with 64 in Hz.
-    rewrite (proj2 (Z.leb_le (-64) z)), (proj2 (Z.ltb_lt z 64)) by lia. cbn [andb app].
-    apply sread_last; auto.
-  - destruct ((-64 <=? z) && (z <? 64)) eqn:T.
-    + apply andb_true_iff in T. destruct T as [T1 T2]. apply Z.leb_le in T1. apply Z.ltb_lt in T2.
-      cbn [app]. apply sread_last; auto.
-    + assert (Hout : z < -64 \/ 64 <= z).
-      { apply andb_false_iff in T. destruct T as [T|T]; [apply Z.leb_gt in T|apply Z.ltb_ge in T]; lia. }
-      leb_setup z shift. rewrite <- app_comm_cons, sread_S.
-      assert (HaccZ : Z.of_N acc < 2 ^ Z.of_N shift) by (rewrite <- HP; lia).
-      set (B := (Z.to_N b + 128)%N).
-      assert (HBm : (B mod 128 = Z.to_N b)%N).
-      { unfold B. replace (Z.to_N b + 128)%N with (Z.to_N b + 1 * 128)%N by lia.
-        rewrite N.mod_add by lia. exact Hbm. }
-      assert (HBl : (B <? 128)%N = false) by (apply N.ltb_ge; unfold B; lia).
-      assert (Hsh' : (shift + 7 <= 63)%N).
-      { destruct (N.le_gt_cases (shift + 7) 63); auto. exfalso.
-        assert (2 ^ 57 <= 2 ^ Z.of_N shift) by (apply Z.pow_le_mono_r; lia).
-        change (2 ^ 63) with (64 * 2 ^ 57) in Htot. nia. }
-      assert (G : ((shift =? 63) && negb (B =? 0) && negb (B =? 127))%N = false)
-        by (destruct (N.eqb_spec shift 63); [lia|reflexivity]).
-      rewrite G, HBl, HBm.
-      assert (HX : Z.of_N (acc + Z.to_N b * 2 ^ shift) = Z.of_N acc + b * 2 ^ Z.of_N shift)
-        by (rewrite N2Z.inj_add, N2Z.inj_mul, HP, Hb; reflexivity).
-      assert (Hsmall : (acc + Z.to_N b * 2 ^ shift < 2 ^ (shift + 7))%N) by (rewrite HP7n; nia).
-      assert (Hsmall' : (acc + Z.to_N b * 2 ^ shift < 2 ^ 64)%N).
-      { assert (2 ^ (shift + 7) <= 2 ^ 63)%N by (apply N.pow_le_mono_r; lia).
-        change (2 ^ 64)%N with (2 * 2 ^ 63)%N. lia. }
-      rewrite (N.mod_small _ _ Hsmall').
-      assert (Etot : Z.of_N (acc + Z.to_N b * 2 ^ shift) + q * 2 ^ Z.of_N (shift + 7)
-                     = Z.of_N acc + z * 2 ^ Z.of_N shift) by (rewrite HX, HP7, DM; ring).
-      rewrite IH.
-      * rewrite Etot. reflexivity.
-      * replace (7 * Z.of_nat (S (S k)) - 1) with ((7 * Z.of_nat (S k) - 1) + 7) in Hz by lia.
-        rewrite Z.pow_add_r in Hz by lia. change (2 ^ 7) with 128 in Hz.
-        set (M := 2 ^ (7 * Z.of_nat (S k) - 1)) in *. lia.
-      * exact Hsmall.
-      * exact Hsh'.
-      * rewrite Etot. exact Htot.
-Qed.
-
-Theorem leb_s32_roundtrip_thm z rest : - 2 ^ 31 <= z < 2 ^ 31 -> decode_s32 (senc 5 z ++ rest) = Some (z, rest).
-Proof.
-  intros [H1 H2].
-  pose proof (proj2 (Z.leb_le _ _) H1) as B1. pose proof (proj2 (Z.ltb_lt _ _) H2) as B2.
-  unfold decode_s32. change 5%nat with (S 4).
-  rewrite sread_senc.
-  - change (Z.of_N 0) with 0. rewrite Z.pow_0_r, Z.mul_1_r, Z.add_0_l. rewrite B1, B2. reflexivity.
-  - change (2 ^ 31) with 2147483648 in *. change (2 ^ (7 * Z.of_nat 5 - 1)) with 17179869184. lia.
-  - reflexivity.
-  - discriminate.
-  - change (Z.of_N 0) with 0. rewrite Z.pow_0_r, Z.mul_1_r, Z.add_0_l.
-    change (2 ^ 31) with 2147483648 in *. change (2 ^ 63) with 9223372036854775808. lia.
+  induction k as [|k IH]; intros j z acc rest HJ HA HZ HV; rewrite senc_S;
+    destruct ((-64 <=? z) && (z <? 64)) eqn:EZ.
+  - apply andb_true_iff in EZ. destruct EZ as [E1 E2]. apply Z.leb_le in E1. apply Z.ltb_lt in E2.
+    cbn [app]. apply last_byte; auto; lia.
+  - exfalso. apply andb_false_iff in EZ. change (7 * Z.of_nat 1 - 1) with 6 in HZ. change (2 ^ 6) with 64 in HZ.
+    destruct EZ as [E|E]; [apply Z.leb_gt in E|apply Z.ltb_ge in E]; lia.
+  - apply andb_true_iff in EZ. destruct EZ as [E1 E2]. apply Z.leb_le in E1. apply Z.ltb_lt in E2.
+    cbn [app]. apply last_byte; auto; lia.
+  - assert (HZO : z < -64 \/ 64 <= z)
+      by (apply andb_false_iff in EZ; destruct EZ as [E|E]; [apply Z.leb_gt in E|apply Z.ltb_ge in E]; lia).
+    pose proof (HP j acc HA) as HP0. pose proof (HAz j acc HA) as HA0.
+    destruct (low_facts j z acc HA) as [HM HD]. destruct (byte_facts _ HM) as (_ & B2 & _ & B4 & B5 & _).
+    rewrite <- app_comm_cons, sread_S, B4, B5.
+    assert (N63 : (7 * N.of_nat j)%N <> 63%N).
+    { intros E63. assert (j = 9%nat) by lia. subst j. change (2 ^ (7 * Z.of_nat 9)) with (2 ^ 63) in *. nia. }
+    rewrite (proj2 (N.eqb_neq _ _) N63). cbn [andb].
+    assert (J8 : (j <= 8)%nat) by lia. destruct (nowrap j z acc HA HV J8) as (H128 & NW & ZV).
+    rewrite NW. replace (7 * N.of_nat j + 7)%N with (7 * N.of_nat (S j))%N by lia.
+    rewrite IH.
+    + f_equal. f_equal. rewrite ZV, pow7. nia.
+    + lia.
+    + apply N2Z.inj_lt. rewrite ZV, N2Z.inj_pow.
+      replace (Z.of_N (7 * N.of_nat (S j))) with (7 * Z.of_nat (S j)) by lia.
+      change (Z.of_N 2) with 2. rewrite pow7. nia.
+    + replace (7 * Z.of_nat (S (S k)) - 1) with (7 + (7 * Z.of_nat (S k) - 1)) in HZ by lia.
+      rewrite Z.pow_add_r in HZ by lia. change (2 ^ 7) with 128 in HZ.
+      assert (0 < 2 ^ (7 * Z.of_nat (S k) - 1)) by (apply Z.pow_pos_nonneg; lia).
+      split; [apply Z.div_le_lower_bound; lia|apply Z.div_lt_upper_bound; lia].
+    + rewrite ZV, pow7. nia.
 Qed.
 
 Theorem leb_s64_roundtrip_thm z rest : - 2 ^ 63 <= z < 2 ^ 63 -> decode_s64 (senc 10 z ++ rest) = Some (z, rest).
 Proof.
-  intros H. unfold decode_s64. change 10%nat with (S 9).
-  rewrite sread_senc.
-  - change (Z.of_N 0) with 0. rewrite Z.pow_0_r, Z.mul_1_r, Z.add_0_l. reflexivity.
-  - change (2 ^ 63) with 9223372036854775808 in H.
-    change (2 ^ (7 * Z.of_nat 10 - 1)) with 590295810358705651712. lia.
+  intros H. unfold decode_s64. change 0%N with (7 * N.of_nat 0)%N at 1.
+  rewrite (sread_senc 9 0 z 0 rest); [f_equal; f_equal; cbn; lia|lia|reflexivity| |cbn; lia].
+  assert (2 ^ 63 <= 2 ^ (7 * Z.of_nat 10 - 1)) by (apply Z.pow_le_mono_r; lia). lia.
+Qed.
+Theorem leb_s32_roundtrip_thm z rest : - 2 ^ 31 <= z < 2 ^ 31 -> decode_s32 (senc 5 z ++ rest) = Some (z, rest).
+Proof.
+  intros H. unfold decode_s32. change 0%N with (7 * N.of_nat 0)%N at 1.
+  assert (2 ^ 31 <= 2 ^ 63) by (apply Z.pow_le_mono_r; lia).
+  rewrite (sread_senc 4 0 z 0 rest).
+  - replace (Z.of_N 0 + z * 2 ^ (7 * Z.of_nat 0)) with z by (cbn; lia).
+    destruct H as [H1 H2]. rewrite (proj2 (Z.leb_le _ _) H1), (proj2 (Z.ltb_lt _ _) H2). reflexivity.
+  - lia.
   - reflexivity.
-  - discriminate.
-  - change (Z.of_N 0) with 0. rewrite Z.pow_0_r, Z.mul_1_r, Z.add_0_l. exact H.
+  - assert (2 ^ 31 <= 2 ^ (7 * Z.of_nat 5 - 1)) by (apply Z.pow_le_mono_r; lia). lia.
+  - cbn. lia.
 Qed.
